@@ -26,6 +26,7 @@
 //   done <s>
 #include "common.h"
 #include "libavoid/libavoid.h"
+#include "c12_ops.h"
 #include <map>
 #include <set>
 #include <sstream>
@@ -521,6 +522,7 @@ void runCase(const vh::Args &a, long k, int klass) {
 
 int main(int argc, char **argv) {
     vh::Args a = vh::parseArgs(argc, argv);
+    if (a.mode == "ops") return c12ops::opsMain(a);      // op-level correspondence (c12_ops.h)
     long n = ((a.tier == "thorough") ? 1950 : 208) * a.scale;
     if (a.n >= 0) n = a.n;
     // One child process per case: a leak is then attributable to the case that caused it (the
